@@ -15,7 +15,7 @@ from ..model import src
 from ..report import Report, key_of
 from ..terms import dag_nodes, has_opaque, pretty
 from ..types import Ctx
-from .common import TRUSTED_BASE, bound_args, cfg_nodes_for, effects_of, facts_text, inl, is_run_edge, src_resolved, subst_single_assign, where
+from .common import TRUSTED_BASE, bound_args, cfg_nodes_for, effects_of, expanded_facts, facts_text, inl, is_run_edge, src_resolved, subst_single_assign, where
 
 
 def provenance(t, old_names, new_names):
@@ -196,6 +196,13 @@ def run(A, R: Report, thorough: bool):
                 vb = {side(t_) for t_ in tt.get(id(b_), [])} - {None}
                 sa, sb = (va or sa), (vb or sb)
             ok9 = (sa == {'old'} and sb == {'new'}) or (sa == {'new'} and sb == {'old'})
+            # the source file is only looked at when it exists: the comparison is reached only with `old_task.has_data` established
+            if o_ is f and ok9:
+                known = [(src_resolved(A, f, t_), pol) for cn in cfg_nodes_for(cfg, n_) for t_, pol in expanded_facts(A, f, cfg, cn.id)]
+                has_src = any((pol and txt.endswith('.has_data') and any(x in txt for x in old_names)) or ((not pol) and txt.startswith('not ') and txt.endswith('.has_data') and any(x in txt for x in old_names)) for txt, pol in known)
+                R.check(has_src, 'R20.9', f'migrate_to_parameter_mode: `{src(n_)[:40]}` (source present)', key_of('stat-without-source', has_src), 'the source is known to have data where its size is read',
+                        'the size of the source file is read before it is known that the source task has data: a task that exists only in the target (computed there after an earlier migration) makes a repeated '
+                        'migration stop with FileNotFoundError, and the tasks after it are not carried over', where=where(o_, n_))
             R.check(ok9, 'R20.9', f'migrate_to_parameter_mode: `{src(n_)[:50]}`', key_of('size-compare', sorted(sa), sorted(sb)), 'source size against target size',
                     f'`{src(n_)[:80]}` compares `{ta[:60]}` ({sorted(sa)}) with `{tb[:60]}` ({sorted(sb)}): a half-written target left by an interrupted migration is accepted as "already exists", and the chain loads a truncated result',
                     where=where(o_, n_))
@@ -302,16 +309,31 @@ def run(A, R: Report, thorough: bool):
     check_key_stateless(A, R, 'R20.5')
 
     # ---- R20.4
-    R.rule('R20.4', 'old and new tasks are paired by full name; nothing in the migration can run a task', floor=2)
+    R.rule('R20.4', 'old and new tasks are paired by the names they are registered under in their chains; nothing in the migration can run a task', floor=2)
+
+    def registered(t):
+        """the mapping name -> task of a chain as the chain registered it: `chain.tasks`, a copy of it, or a comprehension over its items keyed by the item key"""
+        if t[0] == 'call' and t[1] in ('dict', 'copy.copy') and len(t[2]) == 1:
+            t = t[2][0]
+        if t[0] == 'method' and t[2] == 'copy' and not t[3]:
+            t = t[1]
+        if t[0] == 'attr' and t[2] == 'tasks':
+            return True
+        return t[0] == 'mapdict' and len(t[1]) == 2 and t[2] == t[1][0] and t[3] == t[1][1] and t[4][0] == 'items' and t[4][1][0] == 'attr' and t[4][1][2] == 'tasks' and t[5] is None
+
     maps = []
     for name, es in binds.items():
         for e in es:
             for t in at.get(id(e), []):
-                if t[0] == 'mapdict' and side(t) in ('old', 'new') and not isinstance(getattr(e, '_parent', None), ast.For):
+                if (t[0] == 'mapdict' or registered(t)) and side(t) in ('old', 'new') and not isinstance(getattr(e, '_parent', None), ast.For):
                     maps.append((name, t))
     sides4 = {side(t) for _, t in maps}
-    key_ok = sides4 == {'old', 'new'} and all(t[2][0] == 'attr' and t[2][2] == 'fullname' and t[2][1] in t[1] and t[3] == t[2][1] for _, t in maps)
-    shown = [pretty(t[2]) for _, t in maps]
-    R.check(key_ok, 'R20.4', 'migrate_to_parameter_mode: pairing', key_of('pairing', shown), 'both chains keyed by fullname', f'chains are not both keyed by full name: {shown}', where=where(f))
+    by_own_name = [t for _, t in maps if t[0] == 'mapdict' and not registered(t) and t[2][0] == 'attr' and t[2][2] == 'fullname' and t[2][1] in t[1] and t[3] == t[2][1]]
+    key_ok = sides4 == {'old', 'new'} and all(registered(t) for _, t in maps)
+    shown = [pretty(t[2]) if t[0] == 'mapdict' else pretty(t)[:60] for _, t in maps]
+    R.check(key_ok, 'R20.4', 'migrate_to_parameter_mode: pairing', key_of('pairing', 'own-fullname' if by_own_name and len(by_own_name) == len(maps) else shown), 'both chains indexed by their registered names',
+            ('the chains are indexed by each task object\'s own `fullname`: in parameter mode one object stands for every name with the same parameters (equal tasks under two namespaces), it carries only the first of '
+             'them, so the second name is missing from the index - `new_chain[name]` raises KeyError and nothing after it is migrated' if by_own_name and len(by_own_name) == len(maps) else
+             f'chains are not both indexed by the names their tasks are registered under: {shown}'), where=where(f))
     p = A.cg.find_path([ctx], is_run_edge(A))
     R.check(p is None, 'R20.4', 'migrate_to_parameter_mode: runs nothing', key_of('run-reachable'), 'run() unreachable', 'the migration can run a task', witness=show_path(p) if p else None, where=where(f))
